@@ -6,19 +6,19 @@ CHECKS = {
  "C01": dict(level="exploration",
    text="Generated search over hostile request bytes (well-formed requests of all 47 opcodes, stacked mutations: length lies, opcode holes, truncation, junk, extreme u32 at any body offset, missing NULs; and random bytes) x reply capacities x both transports x scripted filesystem results. Oracle inside the case: no panic (catch_unwind), canary frames around every buffer intact, at most one reply, every reply complete (len, unique, errno range, one datagram = one write call on the SEQPACKET /dev/fuse stand-in), FORGET/BATCH_FORGET never answered, well-formed answer-requiring requests answered exactly once. Exploration: the input space is all byte strings.",
    design="3/C01", note="In-process catch_unwind + canary frames (no sanitizer in the quick tier); one SEQPACKET datagram == one write call; sound scripted filesystem.",
-   technique="property-based testing (proptest) with grammar+mutation+random generators, shrinking to a replay file"),
+   technique="property-based testing (proptest) with grammar+mutation+random generators, shrinking to a replay file; thorough adds coverage-guided fuzzing (libFuzzer/ASan byte target c01_msg) with the same oracle in-target"),
  "C03": dict(level="exploration",
    text="Generated search: opcode x scripted filesystem result (every stat field, timeouts, flags, handles, payloads, xattr value/count, locks, statfs, dirent lists with names of every length mod 8 and requested sizes, every errno, non-OS error kinds) served over both transports; the reply is decoded with the kernel's struct layouts and compared field by field with what the filesystem returned; directory replies are re-parsed record by record; notifications checked likewise.",
    design="3/C03", note="Kernel header 7.38 + supplement for backing_id; canonical errno required only for 5 error kinds; pre-7.9 layouts not claimed.",
-   technique="property-based testing (proptest): result generator + kernel-layout decoder oracle, metamorphic equality of fuse_entry_out across entry-carrying replies"),
+   technique="property-based testing (proptest): result generator + kernel-layout decoder oracle, metamorphic equality of fuse_entry_out across entry-carrying replies; thorough adds coverage-guided fuzzing (libFuzzer/ASan, JSON case recombination mutator, target c03_encode)"),
  "C04": dict(level="exploration",
    text="Stateful model-based testing of Reader/Writer over a /dev/fuse buffer and random virtio descriptor chains (segment lengths 0/1/page+-1, 3 regions, gaps, indirect tables): op sequences incl. nested splits and splits after partial consumption are interpreted against a flat byte-vector model; after every op returned bytes, file contents and available/consumed counters are compared, over-capacity ops must fail without effect, final buffer/guest memory and datagrams must equal the model, canaries intact. FileVolatileSlice (Bytes<usize>) and File vectored I/O are compared with a Vec<u8> model.",
    design="3/C04", note="Unsplit /dev/fuse writer is written once (documented contract); cursor re-synchronised after a failed read_exact; canaries instead of a sanitizer.",
-   technique="stateful property-based testing (proptest, vec(op) + interpreter) against a reference byte-stream model"),
+   technique="stateful property-based testing (proptest, vec(op) + interpreter) against a reference byte-stream model; thorough adds coverage-guided fuzzing (libFuzzer/ASan byte target c04_rw) of op programs with the same model in-target"),
  "C07": dict(level="exploration",
    text="Model-based testing of the VFS: histories of mount/over-mount/umount (incl. >255 mounts for index wrap-around and root mounts), LOOKUP walks, every forwarded request kind, stale-inode probes, cross-mount rename/link and consistency probes run against a Vfs with scripted tree backends; a model client_ino -> (mount, backend inode), learned from replies joined with backend call logs, decides that each request reaches exactly the owning backend with its own inode number and nobody else.",
    design="3/C07", note="Backends number entries consistently; stale numbers whose 8-bit slot was re-used are not claimed.",
-   technique="stateful property-based testing (proptest) with an encoding-agnostic routing model and backend call logs"),
+   technique="stateful property-based testing (proptest) with an encoding-agnostic routing model and backend call logs; thorough adds coverage-guided fuzzing of histories (libFuzzer/ASan, JSON case recombination mutator, target c07_vfs)"),
  "C13": dict(level="exploration",
    text="Enumerates every obligation of the ABI table: struct sizes, each named field's offset and width (Rust offset_of!/size_of vs the C compiler's offsetof/sizeof on linux/fuse.h), coverage of kernel fields, every opcode/notify/flag constant; Opcode::from is checked over u32 ranges (thorough: all 2^32 values); stat/statvfs/setattr conversions are checked on generated values incl. round trip. The finite tables are enumerated completely (exhaustive_parts in the evidence).",
    design="3/C13", note="Trusted base: installed kernel header 7.38 + 3-item supplement; committed Rust<->C name map.",
@@ -26,19 +26,19 @@ CHECKS = {
  "C14": dict(level="exploration",
    text="Same interpreter as C07 with global and per-mount id mappings (disjoint, adjacent, overlapping, size-1, near u32::MAX) on most mounts: an arithmetic model decides, per serving mount, the caller ids and owner-ids-to-set the backend must see and every owner id the client must see (lookup, getattr, setattr, create, mkdir, mknod, symlink, readdirplus, mount roots), applied exactly once, incl. slot reuse after over-mount and index wrap-around and requests on the root node with a backend mounted at /.",
    design="3/C14", note="Valid mapping configurations only (base+range <= 2^32); mount-root attributes are those cached at mount time.",
-   technique="stateful property-based testing (proptest) with an arithmetic id-mapping model and backend call logs"),
+   technique="stateful property-based testing (proptest) with an arithmetic id-mapping model and backend call logs; thorough adds coverage-guided fuzzing of histories (libFuzzer/ASan, JSON case recombination mutator, target c07_vfs)"),
  "C17": dict(level="exploration",
    text="Guest memory with an AtomicBitmap: (a) C04's writer/reader op sequences over random chains at arbitrary page offsets, (b) whole requests through handle_message (READ via write/write_from/both/partial-then-error, READDIR(PLUS), GETXATTR, LOOKUP, error and oversize replies). Oracle: dirty page set == pages intersecting the modelled written ranges (both directions), model cross-checked by a byte diff of guest memory.",
    design="3/C17", note="4 KiB bitmap pages; written ranges for requests = reply message plus the bytes the filesystem produced.",
-   technique="property-based testing (proptest) with a written-range model vs the dirty bitmap"),
+   technique="property-based testing (proptest) with a written-range model vs the dirty bitmap; thorough adds coverage-guided fuzzing (libFuzzer/ASan, JSON case recombination mutator, target c17_dirty)"),
  "C12": dict(level="exploration",
    text="Generated INIT requests (major, minor, flag words with/without the extended marker, extended payload present/absent/truncated) x filesystem option words against Server<MockFs>; the reply is decoded exactly as a Linux client decodes it (flags2 only with FUSE_INIT_EXT) and must equal capable & want, be laid out for the client's minor, follow the major-version rules and advertise write limits that fit the transport buffers. Layer level: Vfs (and, from the jail, PassthroughFs) with every configuration switch: advertised bits, backend-visible bits and behaviour (OPEN/OPENDIR ENOSYS iff negotiated), second INIT refused, DESTROY+INIT applies the new capabilities.",
    design="3/C12", note="capable = announced bits restricted to FsOptions::all(); pre-7.23 reply layouts compare the low 32 bits only.",
-   technique="property-based testing (proptest): INIT generator + client-side decoder oracle + behavioural probes"),
+   technique="property-based testing (proptest): INIT generator + client-side decoder oracle + behavioural probes; thorough adds coverage-guided fuzzing (libFuzzer/ASan, JSON case recombination mutator, target c12_init)"),
  "C19": dict(level="exploration",
    text="Differential testing of persistence: generated histories are cut at a generated prefix, the VFS is saved, a fresh VFS restored and the live backends re-attached at their recorded indices; original and restored instance then receive the same probe script and the remaining suffix of the history; replies, backend call logs and mount indices must be identical. Previous-format (version 1) snapshots are produced through a cfg-guarded hook and must load and agree.",
    design="3/C19", note="INIT with an empty capability word is not generated; version-1 snapshots via hook H3; backends re-created from a deep copy of their state at the cut.",
-   technique="differential property-based testing (proptest): original vs restored instance under an identical generated script"),
+   technique="differential property-based testing (proptest): original vs restored instance under an identical generated script; thorough adds coverage-guided fuzzing of histories (libFuzzer/ASan, JSON case recombination mutator, target c19_persist)"),
  "C05": dict(level="exploration",
    text="Model-based testing with the host kernel as reference: generated request histories run against Server<PassthroughFs> inside a chroot jail and, operation by operation, as plain system calls on a shadow copy of the tree (creation as the caller's ids). Per op the errno, attributes, data, link target, xattr values and lseek results are compared; at the end both trees are walked on the host and must be equal; after every request the serving thread's euid/egid/capabilities must be what they were. The configuration matrix (no_open, no_opendir, inode_file_handles, use_host_ino, writeback, cache policy, xattr, withheld client capabilities) is part of the generated case.",
    design="3/C05", note="Reference = kernel 6.18/ext4 in the sandbox; directories keep mode 0777; chmod/utimens not sent for symlinks; CREATE on an existing directory is an excluded input class; inode numbers only up to same-file<=>same-number.",
@@ -61,7 +61,7 @@ CHECKS = {
    technique="stateful property-based testing (proptest) with enumerated EMFILE fault injection per request"),
  "C16": dict(level="exploration",
    text="Directories of 0..300 (thorough 5000) entries with names of every length are listed under generated plans: up to 40 reads on up to 3 handles (or handle-less), resuming from 0, from the handle's last entry or from ANY previously returned entry, with buffers from exactly-the-next-entry up to 64 KiB, plain or plus. Oracle relative to the first sequential pass S: the reply to 'offset of S[k]' is S[k+1..k+m]; S equals the host listing with matching types; offsets non-zero and distinct; payload within size; plus entries carry the file's attributes and exactly the delivered ones hold a reference. Passthrough, pseudo-fs and Vfs-wrapped directories.",
-   design="3/C16", note="Known finding (listed): buffers with < 48 spare bytes can come back empty (dot entries). One host-kernel quirk after lseek to end-of-directory is worked around with a throw-away read.",
+   design="3/C16", note="Known finding (listed): buffers with < 48 spare bytes can come back empty (dot entries). One host-kernel quirk after lseek to end-of-directory: an empty reply directly after an end-of-directory read on the same handle is retried once.",
    technique="property-based testing (proptest): generated resume plans against the sequence of a reference pass"),
  "C18": dict(level="exploration",
    text="Sealed export with files of assorted sizes; generated histories of opens/creates with every flag combination, writes at boundary offsets with arbitrary flag words (append added/removed/random), size-changing setattr, fallocate with many mode words, on handle-based and zero-message-open servers. Invariant after EVERY request: each pre-existing file has its initial size on the host. Differential against an unsealed twin: what changes a size there must be refused here; what stays within the size must be answered and take effect as on the twin.",
@@ -84,7 +84,7 @@ CHECKS = {
    text="Generated search: every opcode x boundary/random valuations of every wire field (encoded through the kernel's own struct layouts) is served by Server<Arc<MockFs>> over both transports and the logged FileSystem call is compared with a protocol-level oracle table; a wrong method, swapped/dropped argument or missing flag test shows as a mismatch. Exploration is the right level: the domain is a huge product of field values with no finite abstraction the tools here could exhaust.",
    design="3/C02",
    note="Trusts /usr/include/linux/fuse.h (7.38) for layouts and the hand-written oracle table in harness/src/reqgen.rs; SETXATTR in 8-byte compat layout; RENAME2 flags within the defined bits.",
-   technique="property-based testing (proptest): structured request generator + call-log oracle, shrinking to a replay file"),
+   technique="property-based testing (proptest): structured request generator + call-log oracle, shrinking to a replay file; thorough adds coverage-guided fuzzing (libFuzzer/ASan, JSON case recombination mutator, target c02_decode)"),
 }
 hooks_commits = []
 try:
